@@ -368,15 +368,16 @@ theorem accepted_notifications_exact (m : Mode) (s s' : Spec) (tr : List SEv)
   have := Spec.notifs_balance m _ _ _ hr
   simpa [h0, h1] using this.symm
 
-/-- When `RevertHead` fails the code still extends `currReorg`: the next reorg notification then
-covers a block that was not reverted (witness; this is why `EnvOK` asks for `revOk`). -/
+/-- (the code in /repo) When `RevertHead` fails the code still extends `currReorg`: the next reorg
+notification then covers a block that was not reverted (witness; this is why `EnvOK` asks for
+`revOk`; reproduced on the real code by injected database failures and replayed exactly). -/
 theorem failed_revert_makes_reorg_range_wrong :
     let g : Blk := ⟨0, 1, 0, true⟩
     let x1 : Blk := ⟨1, 2, 1, true⟩
+    let z2 : Blk := ⟨2, 40, 99, true⟩
     let y2 : Blk := ⟨2, 30, 2, true⟩
-    let es : List Ev := [.reorgDetected 2 (some ⟨0, 77⟩) none, .iter (some ⟨1, 55, 1, true⟩) false,
-      .deliver 2 y2 false]
-    (Impl.run Cfg.original (Impl.init [x1, g]) es).2 =
+    let es : List Ev := [.deliver 2 z2 false, .iter (some ⟨1, 55, 1, true⟩) false, .deliver 2 y2 false]
+    (Impl.run Cfg.asFound (Impl.init [x1, g]) es).2 =
       [Obs.revertFailed 1 2, Obs.stored 2 30, Obs.reorg ⟨1, 2, 1, 2⟩, Obs.newHead 2 30] := by
   decide
 
